@@ -31,6 +31,10 @@ pub enum Kind {
     /// handled) when the second substitution is forked; pending signals are
     /// not part of what a child gets
     CsSig,
+    /// a subshell changes an exported variable and ends with `exec UTILITY`;
+    /// the parent starts an external utility right afterwards: the environment
+    /// it passes (recorded by the simulated kernel at `execve`) is the parent's
+    ExecEnv,
 }
 
 #[derive(Clone, Debug, Serialize, Deserialize, PartialEq)]
@@ -152,6 +156,7 @@ fn gen_test(rng: &mut Rng, n: &mut u32, id: &mut u32, depth: u32) -> Test {
         Kind::CsTrap,
         Kind::BigWriters,
         Kind::CsSig,
+        Kind::ExecEnv,
     ]);
     // (`$$` is the main shell: only there)
     let kind = if kind == Kind::CsSig && depth > 0 { Kind::Cs } else { kind };
@@ -163,7 +168,7 @@ fn gen_test(rng: &mut Rng, n: &mut u32, id: &mut u32, depth: u32) -> Test {
     let mut child2 = if matches!(kind, Kind::Pipe | Kind::Pipe3) { muts(rng, n, 4) } else { Vec::new() };
     // the second element's stdin is the pipe the positive control reads
     child2.retain(|m| m != "exec </work/e1" && m != "exec <&-");
-    let nested = if !matches!(kind, Kind::CsTrap | Kind::BigWriters) && depth < 2 && rng.below(3) == 0 {
+    let nested = if !matches!(kind, Kind::CsTrap | Kind::BigWriters | Kind::ExecEnv) && depth < 2 && rng.below(3) == 0 {
         Some(Box::new(gen_test(rng, n, id, depth + 1)))
     } else {
         None
@@ -252,6 +257,9 @@ fn render_test(t: &Test, out: &mut String) {
     }
     let k = t.id;
     out.push_str(&join(&t.pre));
+    if t.kind == Kind::ExecEnv {
+        out.push_str(&format!("export ev{k}=parent{k}\n"));
+    }
     if t.kind == Kind::CsSig {
         // (part of the test itself: without the trap the signal ends the shell)
         out.push_str(&format!("trap ': sg{k}' USR1\n"));
@@ -282,6 +290,10 @@ fn render_test(t: &Test, out: &mut String) {
             "cs{k}=$(kill -s USR1 $$)$( snap E{k}; {}{}echo data{k} >{ctl_file}; snap X{k}; echo out{k} )\nsnap C{k}\ncat {ctl_file}; echo \"$cs{k}\"\n",
             join(&t.child),
             inner
+        )),
+        Kind::ExecEnv => out.push_str(&format!(
+            "( snap E{k}; {}ev{k}=child{k}; exec /bin/true ) 2>>/work/errlog; /bin/false 2>>/work/errlog\nlastenv ev{k} >|{ctl_file}\nsnap C{k}\ncat {ctl_file}\n",
+            join(&t.child)
         )),
         Kind::Pipe => out.push_str(&format!(
             "{{ snap E{k}; {}{}echo data{k}; snap X{k}; }} | {{ snap F{k}; {}cat >{ctl_file}; snap Y{k}; }}\nsnap C{k}\ncat {ctl_file}\n",
@@ -340,6 +352,7 @@ fn expected_stdout_test(t: &Test, out: &mut String) {
         Kind::Cs | Kind::CsSig => out.push_str(&format!("data{k}\nout{k}\n")),
         Kind::Async => out.push_str(&format!("mid{k}\ndata{k}\n")),
         Kind::BigWriters => out.push_str(&format!("A len={} bad=-1 B len={} bad=-1\n", t.big.0, t.big.1)),
+        Kind::ExecEnv => out.push_str(&format!("ev{k}=parent{k}\n")),
     }
 }
 
@@ -477,7 +490,21 @@ fn check_test(t: &Test, snaps: &BTreeMap<String, SnapMap>, tolerant: bool, job_c
             return Some(("trace".into(), "trace".into(), format!("snapshot D{k} missing")));
         }
     }
+    // (the variable the substitution is assigned to may be exported: it is
+    // left out of the environment as it is left out of the variables)
+    let strip_cs = |m: &SnapMap| -> SnapMap {
+        let mut m = m.clone();
+        if let Some(e) = m.get("envp").cloned() {
+            let prefix = format!("cs{k}=");
+            let kept: Vec<&str> = e.split('\u{1}').filter(|v| !v.starts_with(&prefix)).collect();
+            m.insert("envp".into(), kept.join("\u{1}"));
+        }
+        m
+    };
+    let b_cs = strip_cs(b);
     for (name, p) in parents {
+        let p_cs = strip_cs(p);
+        let (b, p) = if matches!(t.kind, Kind::Cs | Kind::CsTrap | Kind::CsSig) { (&b_cs, &p_cs) } else { (b, p) };
         let d = own_tty(diff(b, p, &leak_skip));
         if !d.is_empty() {
             return Some((
@@ -583,6 +610,9 @@ fn check_test(t: &Test, snaps: &BTreeMap<String, SnapMap>, tolerant: bool, job_c
                         || key == "trap:S003"
                 }
                 Kind::Cs | Kind::CsSig | Kind::Pipe | Kind::Pipe3 | Kind::CsTrap | Kind::BigWriters => (pipe_in && key == "fd:0") || (pipe_out && key == "fd:1"),
+                // (the test's own `2>>errlog` on the subshell: descriptor 2 and
+                // the saved copy of it at 10 or above)
+                Kind::ExecEnv => key.strip_prefix("fd:").and_then(|n| n.parse::<i32>().ok()).is_some_and(|n| n == 2 || n >= 10),
                 Kind::Paren => false,
             }
         };
